@@ -121,7 +121,17 @@ main(int argc, char** argv)
       continue;
     }
     if (!tree) { puts("bad-op"); continue; }
-    if (!strcmp(tok[0], "ins") && n == 2) {
+    if (!strcmp(tok[0], "insfail") && n == 2) {
+      // insertion while the allocator refuses the node
+      static long tmpkey;
+      tmpkey = strtol(tok[1], NULL, 10);
+      ZixTreeIter* it = NULL;
+      va.fail_at = va.n_requests;
+      const ZixStatus st = zix_tree_insert(tree, &tmpkey, &it);
+      va.fail_at = -1;
+      printf("st=%s it=%d size=%zu", st == ZIX_STATUS_EXISTS ? "EXISTS" : st == ZIX_STATUS_NO_MEM ? "NO_MEM" : "OTHER", st == ZIX_STATUS_EXISTS ? id_of(it) : 0, zix_tree_size(tree));
+      wb();
+    } else if (!strcmp(tok[0], "ins") && n == 2) {
       if (next_id >= MAXN - 1) { puts("bad-op"); continue; }
       const int id = next_id;
       key_of[id] = strtol(tok[1], NULL, 10);
